@@ -104,8 +104,22 @@ pub const VOCAB: &[&str] = &[
     "12345678901234567890", "ANY", "any", "primary", "REPLICA", "auto", "default", "on", "OFF", "SELECT 1", "--x", "/*x*/", "x",
 ];
 
+/// Arguments and padding of "any length": zero-padded numbers and long runs of spaces at the ends.
+pub const Z70: &str = "0000000000000000000000000000000000000000000000000000000000000000000000";
+pub const Z69_1: &str = "0000000000000000000000000000000000000000000000000000000000000000000001";
+pub const SP80: &str = "                                                                                ";
+
 pub fn canonical_spellings() -> Vec<Vec<&'static str>> {
     let mut v: Vec<Vec<&'static str>> = Vec::new();
+    for val in [Z70, Z69_1] {
+        v.push(vec!["SET", " ", "SHARD", " ", "TO", " ", val]);
+        v.push(vec!["set", " ", "shard", " ", "to", " ", "'", val, "'", ";"]);
+        v.push(vec!["SET", " ", "SHARDING", " ", "KEY", " ", "TO", " ", "'", val, "'"]);
+    }
+    v.push(vec!["SHOW", " ", "SHARD", SP80, ";"]);
+    v.push(vec![SP80, "SHOW", " ", "SERVER", " ", "ROLE"]);
+    v.push(vec![SP80, "SET", " ", "SERVER", " ", "ROLE", " ", "TO", " ", "'", "replica", "'", SP80]);
+    v.push(vec!["SET", " ", "PRIMARY", " ", "READS", " ", "TO", " ", "off", SP80, ";", SP80]);
     for val in ["0", "1", "99", "12345678901234567890"] {
         v.push(vec!["SET", " ", "SHARDING", " ", "KEY", " ", "TO", " ", "'", val, "'"]);
         v.push(vec!["set", " ", "sharding", " ", "key", " ", "to", " ", val, ";"]);
@@ -533,7 +547,7 @@ pub fn run(tier: &str) -> Part {
     part.extra.insert("model_states".into(), json!(states.len()));
     part.extra.insert("model_transitions".into(), json!(transitions.len()));
     part.rule = format!(
-        "all strings of <= {} tokens over a {}-token vocabulary (keywords in two cases, separators, quotes, numbers incl. a 20-digit one, role/on-off words, foreign SQL, comments), every canonical spelling with all single{} token insertions/deletions/replacements, embedded and multi-statement forms: {} distinct strings, each classified by a hand-written reference recogniser (must-handle / must-forward / don't-care) and compared with try_execute_command as Query and as Parse; all command sequences of length {} over 15 commands under 4 pool configurations vs a reference state machine",
+        "all strings of <= {} tokens over a {}-token vocabulary (keywords in two cases, separators, quotes, numbers incl. a 20-digit one and 70-digit zero-padded ones, 80-space padding, role/on-off words, foreign SQL, comments), every canonical spelling with all single{} token insertions/deletions/replacements, embedded and multi-statement forms: {} distinct strings, each classified by a hand-written reference recogniser (must-handle / must-forward / don't-care) and compared with try_execute_command as Query and as Parse; all command sequences of length {} over 15 commands under 4 pool configurations vs a reference state machine",
         maxlen,
         VOCAB.len(),
         if thorough { " and (thinned) double" } else { "" },
